@@ -8,7 +8,7 @@ proto := `conn` | `ctrl` | `tun` | `map` | `mapu` | `code` | `mapq`   (the insta
 obs   := event* `|` item*
 event := `stp.<tid>.<n>` | `blk.<tid>.<n>` | `adm.<tid>.<item>.<victim or ->.<n>` | `ref.<tid>.<dirty>.<n>`
        | `rel.<tid>.<item>.<n>` | `nop.<tid>.<n>`
-free  := `free p <proto> lim <L> pre <k> n <N>`  with obs  `adm <a> ref <r> max <m> fin <f> dirty <0|1>`
+free  := `free p <proto> lim <L> pre <k> n <N> [it <rounds>]`  with obs  `adm <a> ref <r> max <m> fin <f> dirty <0|1>`
 caps  := `caps` with obs `maxconn=<n> maxctrl=<n> codes=<n> mappings=<n>` (defaults of the compiled code)
 -/
 namespace Tunnox.Drv.C17
@@ -102,6 +102,9 @@ def parseFree (ts : List String) : Option FreeCase :=
   match ts with
   | ["free", "p", p, "lim", l, "pre", k, "n", n] => do
     let P ← protoOf p; let l ← l.toNat?; let k ← k.toNat?; let n ← n.toNat?
+    pure ⟨P, l, k, n⟩
+  | ["free", "p", p, "lim", l, "pre", k, "n", n, "it", i] => do
+    let P ← protoOf p; let l ← l.toNat?; let k ← k.toNat?; let n ← n.toNat?; let _ ← i.toNat?
     pure ⟨P, l, k, n⟩
   | _ => none
 
